@@ -1,13 +1,14 @@
 """C07 - the VEGAS grid stays a valid partition and refinement equidistributes importance.
 Spec: Refine.tla (Walk as coded; GridRefineOK / ObservedRefineOK / Icdf* property level), MC_Refine, Trace_C07."""
 import vt
+import mpicommon
 
 LEVEL = "model_checking"
 BUILDS = [(("drv_c07", ["drv_c07.cpp"]), {})]
 ACTIONS = ("GridCase", "RefStep", "Default", "Icdf", "IcdfTop", "Point", "ZeroIter", "PointHD", "NextGrid")
 
 
-def run(chk, replay=None):
+def run_main(chk, replay=None):
     thorough = chk.tier == "thorough"
     chk.cov["checker_cmd"] = "tlc MC_Refine; tlc Trace_C07 (TRACE=out/C07/trace.ndjson)"
     chk.cov["trusted_base"] = ["TLC", "for alpha != 0 the damped importance ((r-1)/ln r)^alpha is evaluated by the driver in long double "
@@ -44,6 +45,16 @@ def run(chk, replay=None):
         if r2.rc == 0:
             raise vt.MachineryError("binding self-test: corrupted trace accepted")
         chk.cov["binding_selftest"] = "new boundary shifted by 1%% at event %d: rejected (matched %s)" % (i + 1, r2.matched)
+
+
+def run(chk, replay=None):
+    # the grid under MPI (mpi_vegas refines a grid of its own after every iteration): every rank's next grid is the refinement of the reduced result
+    if mpicommon.is_mpi_replay(replay):
+        mpicommon.mpi_leg(chk, "C07:mpi", replay=replay)
+        return
+    run_main(chk, replay=replay)
+    if not replay and not chk.violations:
+        mpicommon.legs(chk, "C07:mpi", big=False)
 
 
 def replay(chk, path):
